@@ -349,20 +349,22 @@ Lemma spec_execs_snoc st p ops o :
   let '(p1, outs) := spec_execs st p ops in let '(p2, out) := spec_exec st p1 o in (p2, outs ++ [out]).
 Proof. unfold spec_execs. rewrite fold_left_app. cbn [fold_left]. reflexivity. Qed.
 
-(* every reachable world: well-formed, statics untouched, no operation reached UB; and if no operation reported an
-   allocation failure, the texts and every returned value are exactly Spec's *)
-Theorem execs_sound st orc ops :
-  gen_ok -> Forall Valid st -> Forall (op_wf st) ops ->
-  let '(w, outs) := execs (world0 st orc) ops in
-  WF w /\ statics (wmem w) = st /\ Forall (fun o => forall u, o <> UbOut u) outs
+(* every world reachable from a well-formed one: well-formed, statics untouched, no operation reached UB; and if no
+   operation reported an allocation failure, the texts and every returned value are exactly Spec's.  The starting world is
+   ANY well-formed world — in particular its [ext] (what the references held outside this world add to every count an
+   atomic reads) is arbitrary: this is the statement for one thread among others, whatever the others do to the counts. *)
+Theorem execs_sound_from w0 ops :
+  gen_ok -> WF w0 -> Forall (op_wf (statics (wmem w0))) ops ->
+  let '(w, outs) := execs w0 ops in
+  WF w /\ statics (wmem w) = statics (wmem w0) /\ Forall (fun o => forall u, o <> UbOut u) outs
   /\ (forallb (fun o => negb (alloc_failure o)) outs = true ->
-      (abs w, outs) = spec_execs st [] ops).
+      (abs w, outs) = spec_execs (statics (wmem w0)) (abs w0) ops).
 Proof.
-  intros Hg Hst. induction ops as [|o ops IH] using rev_ind; intros Hwf.
-  - cbn. split; [apply wf_world0; exact Hst|]. split; [reflexivity|]. split; [constructor|]. intros _. reflexivity.
+  intros Hg HW0. induction ops as [|o ops IH] using rev_ind; intros Hwf.
+  - cbn. split; [exact HW0|]. split; [reflexivity|]. split; [constructor|]. intros _. reflexivity.
   - apply Forall_app in Hwf. destruct Hwf as (Hwf1 & Hwf2). inversion Hwf2 as [|? ? Hwo _]; subst.
     specialize (IH Hwf1). rewrite execs_snoc, spec_execs_snoc.
-    destruct (execs (world0 st orc) ops) as [w1 outs1]. destruct IH as (HW1 & Hs1 & Hu1 & Hr1).
+    destruct (execs w0 ops) as [w1 outs1]. destruct IH as (HW1 & Hs1 & Hu1 & Hr1).
     destruct (exec w1 o) as [w2 out] eqn:He.
     assert (Hwo' : op_wf (statics (wmem w1)) o) by (rewrite Hs1; exact Hwo).
     pose proof (exec_sound w1 o w2 out Hg HW1 Hwo' He) as [P1 P2 P3 P4 P5].
@@ -372,3 +374,23 @@ Proof.
       cbn [forallb] in Ha2. rewrite andb_true_r in Ha2. apply negb_true_iff in Ha2.
       specialize (Hr1 Ha1). rewrite <- Hr1. specialize (P4 Ha2). rewrite Hs1 in P4. rewrite <- P4. reflexivity.
 Qed.
+
+(* from the empty world of one thread among others *)
+Theorem execs_sound_x st orc ex ops :
+  gen_ok -> Forall Valid st -> Forall (op_wf st) ops ->
+  let '(w, outs) := execs (world0x st orc ex) ops in
+  WF w /\ statics (wmem w) = st /\ Forall (fun o => forall u, o <> UbOut u) outs
+  /\ (forallb (fun o => negb (alloc_failure o)) outs = true ->
+      (abs w, outs) = spec_execs st [] ops).
+Proof.
+  intros Hg Hst Hwf. exact (execs_sound_from (world0x st orc ex) ops Hg (wf_world0x st orc ex Hst) Hwf).
+Qed.
+
+(* the sequential case: nobody else *)
+Theorem execs_sound st orc ops :
+  gen_ok -> Forall Valid st -> Forall (op_wf st) ops ->
+  let '(w, outs) := execs (world0 st orc) ops in
+  WF w /\ statics (wmem w) = st /\ Forall (fun o => forall u, o <> UbOut u) outs
+  /\ (forallb (fun o => negb (alloc_failure o)) outs = true ->
+      (abs w, outs) = spec_execs st [] ops).
+Proof. intros Hg Hst Hwf. exact (execs_sound_x st orc (fun _ => 0) ops Hg Hst Hwf). Qed.
